@@ -408,7 +408,7 @@ def replay_integrate_normalized(p):
 def _parent(p, rng):
     import setigen as stg
     g = inject.GEOMS.get(p.get('geom') or 'g1')
-    fr = stg.Frame(fchans=p['Fc'], tchans=p['T'], df=g['df'], dt=g['dt'], fch1=g['fch1'], ascending=p['asc'], t_start=123456.5, source_name='SRC_X', seed=0)
+    fr = stg.Frame(fchans=p['Fc'], tchans=p['T'], df=g['df'], dt=g['dt'], fch1=g['fch1'], ascending=p['asc'], t_start=p.get('t0', 123456.5), source_name=p.get('name', 'SRC_X'), seed=0)
     fr.data = rng.normal(10, 2, (p['T'], p['Fc']))
     fr.add_metadata({'note': 'x'})
     return fr
@@ -528,7 +528,20 @@ def replay_integrate(p):
     return bool(bad), '; '.join(bad) or 'integrate ok'
 
 
-REPLAYS = {'slice': replay_slice, 'dedrift': replay_dedrift, 'integrate': replay_integrate, 'integrate_normalized': replay_integrate_normalized}
+def _also_at_zero(fn):
+    """the oracle on an ordinary parent, then on one whose start time is exactly 0 and whose source name is empty (values a
+    truthiness test would mistake for 'not given')"""
+    def run(p):
+        bad, msg = fn(p)
+        if not bad:
+            bad, msg = fn(dict(p, t0=0.0, name=''))
+            if bad:
+                msg = f"parent with t_start=0.0 and source_name='': {msg}"
+        return bad, msg
+    return run
+
+
+REPLAYS = {'slice': _also_at_zero(replay_slice), 'dedrift': _also_at_zero(replay_dedrift), 'integrate': replay_integrate, 'integrate_normalized': replay_integrate_normalized}
 
 
 def main():
